@@ -104,6 +104,9 @@ JSON_FIXTURES = ["LiCl_STO4G_Gaussian_input.json", "H2O_CCSDprTpr_STO3G_output.j
 
 def jobs(tier):
     out = [j for j in c02.jobs(tier, prop="C15") if "twin" not in j["name"]]
+    if tier == "quick":
+        # three generations of a 12000-atom file take minutes; the field-width boundaries beyond 1000 atoms are C02's subject
+        out = [j for j in out if j["params"].get("natom", 0) <= 1000]
     from symx.runner import job
     for fn in JSON_FIXTURES:
         for inject in ("none", "protocols", "toplevel", "molecule", "keywords"):
